@@ -228,12 +228,23 @@ func (set *SortedSet) AddOrUpdate(
 			continue
 		}
 		// Policy not specified, just Set the elements and scores
-		if set.members[m.Value].Score != m.Score || !set.members[m.Value].Exists {
+		if !set.Contains(m.Value) {
+			// GT and LT only constrain updates of existing members; a new member takes the given score.
+			set.members[m.Value] = MemberObject{
+				Value:  m.Value,
+				Score:  m.Score,
+				Exists: true,
+			}
+			count += 1
+			continue
+		}
+		newScore := compareScores(set.members[m.Value].Score, m.Score, comp)
+		if set.members[m.Value].Score != newScore {
 			count += 1
 		}
 		set.members[m.Value] = MemberObject{
 			Value:  m.Value,
-			Score:  compareScores(set.members[m.Value].Score, m.Score, comp),
+			Score:  newScore,
 			Exists: true,
 		}
 	}
